@@ -20,8 +20,12 @@ EXPLANATION = (
 )
 ASSUMPTIONS = ["async_channel delivers a sent event exactly once to its receiver", "generic callbacks bound to the closures of the unique production call"]
 
+
 SEND = r"^sync::Subscribers::send(_with)?$"
 VIEW_ENTRY = re.compile(mir.VIEW.pattern[:-2] + r"|entry)$")
+
+
+EXPLANATION += ' (R3, round 8) the event payload is decided by evaluating Replica::insert_remote_entry / insert_entry and the reconciliation callbacks (one event, carrying that entry, this document, the providing peer, its content status and policy.matches(entry), exactly when the store reports it inserted). (R8) the last hop to an API subscriber (LiveEvent::from_replica_event, Engine::subscribe). (R9) a refused drop of the document leaves its subscribers subscribed (doc_drop evaluated; reported F29, fixed).'
 
 
 def _ins_edges(f, b, put_bi):
